@@ -130,6 +130,13 @@ def spec_from_netaddr(c, with_time):
     return a
 
 
+def _s32(v):
+    """The library holds these 4-byte wire fields as signed integers: a wire value with the top bit
+    set (only ever seen after a bit flip on the wire, then echoed back by a replying party) is the
+    negative number with the same bytes."""
+    return v - (1 << 32) if v >= (1 << 31) else v
+
+
 def msg_from_spec(spec):
     lib()
     import bitcoin.messages as M
@@ -152,13 +159,13 @@ def msg_from_spec(spec):
         invs = []
         for i in f['inv']:
             c = N.CInv()
-            c.type = i['type']
+            c.type = _s32(i['type'])
             c.hash = bytes.fromhex(i['hash'])
             invs.append(c)
         m.inv = invs
     elif t in ('getblocks', 'getheaders'):
         loc = N.CBlockLocator()
-        loc.nVersion = f['version']
+        loc.nVersion = _s32(f['version'])
         loc.vHave = [bytes.fromhex(h) for h in f['have']]
         m.locator = loc
         m.hashstop = bytes.fromhex(f['stop'])
